@@ -1,10 +1,14 @@
 #!/bin/bash
-# tools/run_all.sh <tier> <seed> [outdir]  - runs every registered check once, prints rc and wall time per check
-TIER="${1:-quick}"; SEED="${2:-0}"; OUT="${3:-/tmp/vout_all_$TIER_$SEED}"
+# tools/run_all.sh <tier> <seed> [outdir]  - runs every registered check once, prints rc and wall time per check.
+# Without outdir the evidence files under /verif/evidence are rewritten (what has to be committed);
+# with outdir evidence and replays go there (VERIF_OUT).
+TIER="${1:-quick}"; SEED="${2:-0}"; OUT="${3:-}"
+LOGS=/tmp/runall_logs_${TIER}_${SEED}; mkdir -p "$LOGS"
 cd /verif
 for c in $(/venv/bin/python -c "import json;print(' '.join(x['property_id'] for x in json.load(open('MANIFEST.json'))['checks']))"); do
   S=$(date +%s.%N)
-  VERIF_SEED=$SEED VERIF_OUT="$OUT" ./check $c --tier $TIER > "$OUT.$c.log" 2>&1; RC=$?
+  if [ -n "$OUT" ]; then VERIF_SEED=$SEED VERIF_OUT="$OUT" ./check $c --tier $TIER > "$LOGS/$c.log" 2>&1; else VERIF_SEED=$SEED ./check $c --tier $TIER > "$LOGS/$c.log" 2>&1; fi
+  RC=$?
   E=$(date +%s.%N)
-  printf "%s tier=%s seed=%s rc=%s wall=%.0fs %s\n" $c $TIER $SEED $RC $(echo "$E - $S" | bc) "$(grep -c '^VIOLATION' $OUT.$c.log) violations, $(grep -c '^KNOWN-FINDING' $OUT.$c.log) known"
+  printf "%s tier=%s seed=%s rc=%s wall=%.0fs %s\n" $c $TIER $SEED $RC $(echo "$E - $S" | bc) "$(grep -c '^VIOLATION' $LOGS/$c.log) violations, $(grep -c '^KNOWN-FINDING' $LOGS/$c.log) known"
 done
